@@ -11,6 +11,7 @@ import (
 	"github.com/agglayer/aggkit/internal/zzverif"
 	"github.com/agglayer/aggkit/internal/zzverifhttp"
 	"github.com/agglayer/aggkit/l1infotreesync"
+	"github.com/agglayer/aggkit/lastgersync"
 	"github.com/agglayer/aggkit/log"
 	"github.com/agglayer/aggkit/tree"
 	treetypes "github.com/agglayer/aggkit/tree/types"
@@ -202,4 +203,70 @@ func ZZVerif_C12_ClaimProof() {
 		zzverif.Assert("L2 bridge: the second proof hashes that local exit root to the leaf's rollup exit root", tree.CalculateRoot(ler, pr, net-1) == leaf.RollupExitRoot)
 		zzverif.Reach("rollup")
 	}
+}
+
+type zzInjected struct {
+	LastGERer
+	indexes []uint32 // L1 info indexes whose global exit root is injected on L2 (ascending)
+	gers    []common.Hash
+}
+
+func (z *zzInjected) GetFirstGERAfterL1InfoTreeIndex(ctx context.Context, at uint32) (lastgersync.GlobalExitRootInfo, error) {
+	for i, x := range z.indexes {
+		if x >= at {
+			return lastgersync.GlobalExitRootInfo{GlobalExitRoot: z.gers[i], L1InfoTreeIndex: x}, nil
+		}
+	}
+	return lastgersync.GlobalExitRootInfo{}, errors.New("not found")
+}
+
+// ZZVerif_C12_InjectedLeaf: four L1 info leaves with arbitrary contents, those of MASK injected on L2 (the injected-root index
+// answers as C16 establishes). The real handler is asked for network Q and index IDX: for L1 it answers leaf IDX, for the L2
+// network the leaf of the first injected root at or after IDX, and an error when there is none or the network is foreign.
+func ZZVerif_C12_InjectedLeaf() {
+	net := uint32(zzverif.Param("NET"))
+	q := uint32(zzverif.Param("Q"))
+	idx := zzverif.Param("IDX")
+	mask := zzverif.Param("MASK")
+	info := &zzProofInfo{}
+	inj := &zzInjected{}
+	for j := 0; j < 4; j++ {
+		lf := l1infotreesync.L1InfoTreeLeaf{BlockNumber: uint64(10 + j), BlockPosition: uint64(zzverif.U8("pos")), L1InfoTreeIndex: uint32(j), MainnetExitRoot: zzverif.Hash("mer"),
+			RollupExitRoot: zzverif.Hash("rer"), PreviousBlockHash: zzverif.Hash("parent"), Timestamp: zzverif.U64("ts"), GlobalExitRoot: zzverif.Hash("ger"), Hash: zzverif.Hash("leafHash")}
+		info.leaves = append(info.leaves, lf)
+		if mask>>j&1 == 1 {
+			inj.indexes = append(inj.indexes, uint32(j))
+			inj.gers = append(inj.gers, lf.GlobalExitRoot)
+		}
+	}
+	s := &BridgeService{logger: log.GetDefaultLogger(), meter: zzMeter{}, readTimeout: time.Minute, networkID: net, l1InfoTree: info, injectedGERs: inj}
+	c := zzverifhttp.HTTPGet(networkIDParam, strconv.Itoa(int(q)), leafIndexParam, strconv.Itoa(idx))
+	s.InjectedL1InfoLeafHandler(c)
+	var resp bridgetypes.L1InfoTreeLeafResponse
+	code := zzverifhttp.HTTPResult(c, &resp)
+	want := -1
+	switch {
+	case q == 0:
+		if idx < 4 {
+			want = idx
+		}
+	case q == net:
+		for j := 3; j >= idx; j-- {
+			if mask>>j&1 == 1 {
+				want = j
+			}
+		}
+	}
+	if want < 0 {
+		zzverif.Assert("nothing to answer (no such leaf, no injected root at or after the index, foreign network): an error answer", code != http.StatusOK && code != 0)
+		zzverif.Reach("refused")
+		return
+	}
+	zzverif.Assert("answer 200", code == http.StatusOK)
+	lf := info.leaves[want]
+	zzverif.Assert("the answer is the expected leaf, all fields", resp.L1InfoTreeIndex == uint32(want) && resp.BlockNumber == lf.BlockNumber && resp.BlockPosition == lf.BlockPosition &&
+		resp.Timestamp == lf.Timestamp && common.HexToHash(string(resp.MainnetExitRoot)) == lf.MainnetExitRoot && common.HexToHash(string(resp.RollupExitRoot)) == lf.RollupExitRoot &&
+		common.HexToHash(string(resp.GlobalExitRoot)) == lf.GlobalExitRoot && common.HexToHash(string(resp.PreviousBlockHash)) == lf.PreviousBlockHash &&
+		common.HexToHash(string(resp.Hash)) == lf.Hash)
+	zzverif.Reach("answered")
 }
